@@ -302,10 +302,11 @@ theorem bbr_set_cwnd_overflow_counterexample :
   ⟨_, [(.sent 4294967295 3 (some false), {})], _, .ack 3 4294967295 4, { update := true, smallDelivered := true },
    rfl, rfl, by show (4294967295 : Nat) ≤ _; decide, by decide, by decide⟩
 
-/-- `minimum_window` multiplies `MIN_PIPE_CWND_PACKETS: u16` with `max_datagram_size: u16` in u16:
-    from 16384 bytes on the constructor (and `on_mtu_update`) overflow. Outside the 1200..9000 range
-    of C10 (remark; the real controller panics with `attempt to multiply with overflow`). -/
-theorem bbr_minimum_window_u16_overflow : Bbr.init 16384 = none ∧ (Bbr.init 16383).isSome = true := by decide
+/-- `minimum_window` computes `MIN_PIPE_CWND_PACKETS as u32 * max_datagram_size as u32` (fix f3b18df): no
+    overflow for any `u16` datagram size. Before the fix the product was taken in u16 and the constructor
+    (and `on_mtu_update`) overflowed from 16384 bytes on (`Bbr.init 16384 = none` in the pre-fix model;
+    found through the C20 simulations with MTU >= 16384). -/
+theorem bbr_minimum_window_no_overflow : (Bbr.init 16384).isSome = true ∧ (Bbr.init 65535).isSome = true := by decide
 
 /-- what `ok` of the relational driver means: the observed post-state is a step of the skeleton in the
     variant /repo has -/
